@@ -1,6 +1,15 @@
 (* C07: the configuration of the model as read off the source (Generated/Maskbits.v, rewritten on every run). *)
-From Coq Require Import ZArith List Bool.
-From PV Require Import C07.Model Generated.Maskbits.
+From Coq Require Import ZArith List Bool String.
+From PV Require Import Yanny.Bytes C07.Model C07.FileModel Generated.Maskbits.
+
+(* the return chain of sdss_flagexist, evaluated for the four flag combinations *)
+Definition code_ret4 : ret4 := ret4_of (fun fe we => map efield_of (exist_ret_code fe we)).
 
 Definition code_cfg : cfg :=
-  mkcfg load_upper scan_bits accumulate_is_add acc_dtype_uint64 lookup_first upper_group upper_labels exist_all.
+  mkcfg load_upper scan_bits accumulate_is_add acc_dtype_uint64 lookup_first upper_group upper_labels exist_all code_ret4.
+
+(* which table / column of the raw yanny object set_maskbits reads for which role *)
+Definition bs2 (p : string * string) : bytes * bytes := (bs (fst p), bs (snd p)).
+Definition code_names : fnames :=
+  mknames (bs src_bits_size) (bs2 src_bits_flag) (bs2 src_bits_label) (bs2 src_bits_bit)
+          (bs src_alias_guard) (bs src_alias_size) (bs2 src_alias_alias) (bs2 src_alias_flag).
